@@ -443,7 +443,7 @@ func goTestOverlay(testFile, pkg, run string, timeout int, extraEnv []string) (s
 	data, _ := json.Marshal(ov)
 	ovFile := filepath.Join(dir, "ov_"+mangle(base)+".json")
 	os.WriteFile(ovFile, data, 0o644)
-	cmd := exec.Command("go", "test", "-overlay", ovFile, "-vet=off", "-count=1", "-timeout", fmt.Sprintf("%ds", timeout), "-run", run, "./"+strings.TrimPrefix(pkg, "./"))
+	cmd := exec.Command("go", "test", "-overlay", ovFile, "-vet=off", "-count=1", "-v", "-timeout", fmt.Sprintf("%ds", timeout), "-run", run, "./"+strings.TrimPrefix(pkg, "./"))
 	cmd.Dir = repoDir
 	cmd.Env = append(os.Environ(), "GOFLAGS=-mod=mod", "GOPROXY=off", "GOSUMDB=off", "GOTOOLCHAIN=local")
 	cmd.Env = append(cmd.Env, extraEnv...)
